@@ -4,5 +4,8 @@ CONSTANTS
   MaxLinkMaps = 4
   NNodes = 2
   StopOnDecodeError = TRUE
+  CheckedDeadline = TRUE
+  CheckedExtent = TRUE
+  WaitHasDeadline = FALSE
 INVARIANTS Total NoDevOpen WalkBounded Emit
 CHECK_DEADLOCK FALSE
